@@ -49,6 +49,9 @@ def run(name, ns, na, script, total, seed=0, epsilon=0.5):
             mod.train_monte_carlo(env, q, total_timesteps=total, gamma=0.5, epsilon=epsilon, seed=seed, progress_bar=False)
         else:
             patch("counter_update", lambda counter, o, a, r, o2: ("transition", int(o), int(a), float(r), int(o2), None))
+            # the rewards the model keeps for (s, a, s'), as they are when the model is refreshed
+            patch("model_update", lambda model, counter, o, a, o2: ("history", int(o), int(a), int(o2), [float(x) for x in counter.reward_history[int(o)][int(a)][int(o2)]],
+                                                                   [int(c) for c in counter.transition_counter[int(o)][int(a)]]))
             patch("q_learning_update", lambda o, a, r, o2, gamma, lr, q_: ("q_update", int(o), int(a), float(r), int(o2)))
             mod.train_dynaq(env, q, gamma=0.5, learning_rate=0.5, epsilon=epsilon, n_planning_steps=2, buffer_size=5, total_timesteps=total, seed=seed, progress_bar=False)
     except StepAfterDone as e:
@@ -86,6 +89,15 @@ def check_kept(res):
         exp = (e[1], e[2], e[3], e[4], e[5])
         if g[1:5] != exp[:4] or (g[5] is not None and g[5] != exp[4]):
             return "a kept transition differs from the environment's step", {"index": i, "kept": g[1:], "environment": exp}
+    if name == "dynaq":     # the record kept per (s, a, s'): exactly the rewards / counts of the environment steps with that key, in order
+        seen = {}
+        hist = [k for k in res["kept"] if k[0] == "history"]
+        for e, h in zip(steps, hist):
+            seen.setdefault((e[1], e[2], e[4]), []).append(e[3])
+            counts = [len(seen.get((e[1], e[2], s2), [])) for s2 in range(len(h[5]))]
+            if h[1:4] != (e[1], e[2], e[4]) or h[4] != seen[(e[1], e[2], e[4])] or h[5] != counts:
+                return "Dyna-Q's record of (s, a, s') differs from the environment's steps with that key", {"key": [e[1], e[2], e[4]], "kept_rewards": h[4],
+                                                                                                        "environment_rewards": seen[(e[1], e[2], e[4])], "kept_counts": h[5], "counts": counts}
     if name == "dynaq":     # the real-experience update is the first table update after each environment step
         qs = [k for k in res["kept"] if k[0] in ("q_update", "transition")]
         for i in range(len(qs) - 1):
